@@ -4,7 +4,28 @@ import json, os
 HERE = os.path.dirname(os.path.dirname(os.path.abspath(__file__)))
 
 # id -> (category, technique, text, note, design_ref)
+EXEC_NOTE = 'Trusted: Lean kernel; axioms propext/Classical.choice/Quot.sound (audited every run); the scripted-scheduler correspondence harness; job ids returned by submit are unique; report dicts are keyed by queried jobs (WFPoll). Modelled, not verified: Python set iteration order (only observable in check/cancel argument lists, compared sorted), logging, timestamps.'
+def ex(title, text, ref):
+    return ("proof", "Lean 4 invariants over Model/Exec.lean for all DAGs/configurations/histories + state-by-state correspondence with the real ExecutionGraph under a scripted scheduler + property monitor on the real trace: " + title, text, EXEC_NOTE, ref)
 CLAIMED = {
+ "C01": ex("launch-after-dependencies history variable, ready/in-progress parents invariant, completion-only-on-success",
+           "Theorems hold for every well-formed configuration and every sequence of polls (arbitrary well-formed scheduler answers) and cancel requests; the model is validated against executiongraph.py after every operation of thousands of generated histories, and the C01 monitor checks every real submit call against the scheduler's own ledger.", "DESIGN.md §6 C01"),
+ "C02": ex("descendant closure of failed/cancelled, resolved steps never queued/tracked/launched, permanence",
+           "Closure is proved for every reachable state without a study-wide cancel request (after one, nothing at all is submitted: C07); the liveness half (unrelated steps still run) is C05's. Monitor: no submit for descendants of an unsuccessful step, descendants reported FAILED/CANCELLED, no collateral failures.", "DESIGN.md §6 C02"),
+ "C03": ex("ghost ledger of live jobs, peak <= throttle at every ledger change, ledger = tracking",
+           "The peak number of simultaneously live scheduler jobs (history variable updated at every submission/terminal answer, not only at poll boundaries) is proved <= throttle for every history; monitor recomputes the ledger from the real adapter calls.", "DESIGN.md §6 C03"),
+ "C04": ex("one-live-job and never-relaunched history variables, monotone resolved sets, no orphans at a final verdict",
+           "All three clauses are theorems over the model for every history (including failing submissions, hardware failures and restarts); monitor checks the scripted scheduler's ledger, state finality and live jobs at return.", "DESIGN.md §6 C04"),
+ "C05": ex("verdict decision table (exhaustive, exclusive), exit codes over the regenerated enum, FINISHED iff all steps succeeded and no cancel",
+           "The truthfulness half is fully proved (decision table of _check_study_completion over reachable states; exit codes by decide over Gen/Enums). Termination for fair continuations is checked by the fair-tail monitor with the potential bound (liveness theorem: see C05Live if present).", "DESIGN.md §6 C05"),
+ "C06": ex("restart budget invariant, restart-only-with-command history variable, TIMEDOUT decision spelled out",
+           "Budget and restart-script use are theorems for every history; the TIMEDOUT branch is characterised exactly; monitor checks script kind of each real submit, restart rounds and the Number Restarts value.", "DESIGN.md §6 C06"),
+ "C07": ex("after a cancel request a poll only queries (event log), cancel args = tracked = live jobs, flag persists, CANCELLED when drained",
+           "Theorems for every point at which the request can arrive and every continuation (TIMEDOUT / HWFAILURE after the request included); adapter cancel_jobs totality is checked on the real Slurm/LSF/Flux/local adapters by the harness.", "DESIGN.md §6 C07"),
+ "C17": ex("dry-run polls append only script-generation events, nothing in flight, launched steps DRYRUN and complete",
+           "Event-log theorem for every configuration; the dry-vs-real differential and the monitor check adapter calls and states on the real code.", "DESIGN.md §6 C17"),
+ "C20": ex("ERROR aborts with state unchanged, None/omitted/passive answers are no-ops (equational laws), NOJOBS ignores answers",
+           "Equational laws of the model for all states and answers; monitor checks states/jobs/restarts across polls with ERROR, NOJOBS and partial answers on the real code.", "DESIGN.md §6 C20"),
  "C14": ("proof",
          "Lean 4 theorems over Model/Dag.lean (acyclicity invariant, DFS cycle-detection soundness/completeness, toposort, BFS/DFS exactness, fuel sufficiency) + operation-sequence correspondence with the real DAG class + property monitor",
          "Machine-checked theorems for all operation sequences and all graphs over a hand-written model of dag.py; the model is tied to the code on every run by a differential run (random + bounded-exhaustive operation sequences, state compared after every operation) and the property is also monitored directly on the real graph.",
